@@ -4108,9 +4108,9 @@ def fix_import_spacing(source: str) -> str:
         else:
             continue
 
-        indentation_level = formatting.indentation_level(
-            whitespace_between + source[i2_start:i2_end]
-        )
+        # The indentation of the first line of the statement. Its other lines may have less,
+        # inside a multi-line string for example.
+        indentation_level = len(whitespace_between.rsplit("\n", 1)[-1])
         spacing = "\n" * correct_newline_count + " " * indentation_level
         spacing = re.sub(r"\n +\n", "\n\n", spacing)
         replacement_range = core.Range(i1_end, i2_start)
